@@ -82,6 +82,10 @@ def gen_plan(run_seed: int, k: int, tier: str) -> dict:
     if rng.random() < 0.25:
         gsel["P-twin1"] = fixed["P-twin1"]
         gsel["P-twin2"] = fixed["P-twin2"]
+    if rng.random() < 0.25:
+        gsel["P-mod"] = fixed["P-mod"]
+    if rng.random() < 0.2:
+        gsel["P-fold"] = fixed["P-fold"]
     if bundled and rng.random() < 0.5:
         name = rng.choice(sorted(bundled))
         gsel[name] = bundled[name]
@@ -96,6 +100,11 @@ def gen_plan(run_seed: int, k: int, tier: str) -> dict:
                     gsel[f"R{i}t"] = tw
     if not gsel:
         gsel["P-leak"] = fixed["P-leak"]
+    if rng.random() < 0.12:
+        # the same grammar text through a Parser SUBCLASS with its own BUILTIN table, next to
+        # the stock class: what one class's front end / optimizer keeps must not reach the other
+        for name in rng.sample(sorted(gsel), min(len(gsel), rng.randint(1, 2))):
+            gsel[name + "@alt"] = pool.alt_variant(gsel[name])
     gids = sorted(gsel)
 
     # ---- optimizer objects
@@ -176,6 +185,8 @@ def gen_plan(run_seed: int, k: int, tier: str) -> dict:
 
     # ---- setup phase (sequential prefix of the history, run before the clients start)
     setup = []
+    if rng.random() < 0.06:
+        setup.append({"op": "newbad", "gtext": pool.corrupt_grammar(rng, gsel[rng.choice(gids)]["text"]), "opt": rng.choice(oids)})
     for _ in range(rng.randint(1, 4)):
         op = new_op("setup")
         setup.append(op)
@@ -237,6 +248,9 @@ def gen_plan(run_seed: int, k: int, tier: str) -> dict:
                 ops.append(newfrom_op(c, src))
                 mine.append(ops[-1]["id"])
                 ops.append(dict(first))
+                # the SAME call on the new parser (whatever the first parser resolved lazily and
+                # left on a shared Rule object is now read under another rule table), then any
+                ops.append({**first, "t": mine[-1]})
                 ops.append(parse_op(mine[-1]))
             elif r < 0.30 and len(objects) < 14:
                 # the detector shape: parse A, create an (optimized) B, parse A again
@@ -294,6 +308,11 @@ def gen_plan(run_seed: int, k: int, tier: str) -> dict:
                     ops.append(parse_op(b["id"]))
             elif r < 0.39:
                 ops.append({"op": "reads", "t": rng.choice([x for x in avail if objects[x]["kind"] == "parser"] or avail)})
+            elif r < 0.405:
+                # a from_grammar call that (most likely) FAILS part way through the front end:
+                # whatever the scanner / grammar parser / optimizer keep must not reach the
+                # parsers made after it
+                ops.append({"op": "newbad", "gtext": pool.corrupt_grammar(rng, gsel[rng.choice(gids)]["text"]), "opt": rng.choice(oids)})
             elif r < 0.41:
                 ops.append({"op": "gc"})
             elif r < 0.43:
@@ -333,7 +352,7 @@ def gen_plan(run_seed: int, k: int, tier: str) -> dict:
     if rng.random() < 0.45:
         for _ in range(rng.randint(1, 2)):
             c = rng.randrange(n_clients)
-            cand = [op for op in clients[c] if op["op"] in ("parse", "new", "gen")]
+            cand = [op for op in clients[c] if op["op"] in ("parse", "new", "gen", "newbad")]
             if not cand:
                 continue
             op = rng.choice(cand)
@@ -348,7 +367,7 @@ def gen_plan(run_seed: int, k: int, tier: str) -> dict:
                     op["rule"], op["text"], op["pos"] = rule, text, 0
                 faults.append({"kind": "exhaust", "client": c, "oid": op["oid"], "headroom": rng.choice((12, 25, 40, 60, 90, 140, 200))})
             else:
-                est = {"parse": 400, "new": 6000, "gen": 3000}[op["op"]]
+                est = {"parse": 400, "new": 6000, "gen": 3000, "newbad": 1500}[op["op"]]
                 faults.append({"kind": fk, "client": c, "oid": op["oid"], "offset": 1 + int(rng.random() ** 2 * est)})
     return {
         "property": "C15",
@@ -384,6 +403,9 @@ def gen_race_plan(run_seed: int, k: int) -> dict:
     gsel = {n: cands[n] for n in names}
     if rng.random() < 0.3:
         gsel["R0"] = pool.random_grammar(random.Random(common.derive_seed("C15-rg", k % 16, (k // 16) // 4, 0)))
+    if rng.random() < 0.1:
+        name = rng.choice(sorted(gsel))
+        gsel[name + "@alt"] = pool.alt_variant(gsel[name])
     gids = sorted(gsel)
     optimizers = {"o_none": {"passes": None}, "o_shared": {"passes": list(pool.PASS_NAMES), "shared_default": True}, "o1": {"passes": pool.random_optimizer_cfg(rng)}}
     phases = []
@@ -436,6 +458,8 @@ def gen_race_plan(run_seed: int, k: int) -> dict:
             # while the others parse with the round's target -- and then uses what it built
             counter += 1
             bops = []
+            if rng.random() < 0.15:
+                bops.append({"op": "newbad", "gtext": pool.corrupt_grammar(rng, gsel[rng.choice(gids)]["text"]), "opt": rng.choice(("o_none", "o_shared", "o1"))})
             if rng.random() < 0.7:
                 g2 = rng.choice(gids)
                 bops.append({"op": "new", "id": f"p{counter}", "g": g2, "opt": rng.choices(("o_none", "o_shared", "o1"), (2, 5, 3))[0], "debug": rng.random() < 0.2})
@@ -498,6 +522,23 @@ def tree_of(pairs):
     return out
 
 
+def surface_of(pairs):
+    """What the result object says through its non-recursive accessors, for the first few
+    top-level pairs: the matched text and the line/column of its start.  Both are functions of
+    the tree and the input; they are observed because a result is a value -- what it reports
+    must not depend on anything that happened besides the call that returned it."""
+    out = []
+    for p in list(pairs)[:3]:
+        try:
+            t = str(p)
+            out.append([hashlib.blake2b(t.encode("utf-8", "surrogatepass"), digest_size=6).hexdigest(), len(t), list(p.line_col())])
+        except RecursionError:
+            raise
+        except Exception as e:  # noqa: BLE001 - the exception type is the observation
+            out.append(["exc", type(e).__name__])
+    return out
+
+
 def labelset(d):
     return sorted([str(k), sorted({repr(x) for x in v})] for k, v in d.items())
 
@@ -519,7 +560,7 @@ def call_raw(target, rule, text, pos, reraise=()):
 def reduce_raw(raw):
     """Reduce a live result to what C15 promises (tree; failure position and label sets)."""
     if raw[0] == "ok":
-        return ["ok", tree_of(raw[1])]
+        return ["ok", tree_of(raw[1]), surface_of(raw[1])]
     if raw[0] == "fail":
         st = raw[1].state
         return ["fail", st.furthest_pos, labelset(st.furthest_expected), labelset(st.furthest_unexpected)]
@@ -607,8 +648,12 @@ def execute_plan(plan) -> dict:
         def __new__(cls, *a, **k):
             if cls._husks and sched.current in cls._reuse_for:
                 cls._reuse_for.discard(sched.current)
-                sched.fired.append({"kind": "reuse", "client": sched.current, "oid": sched.cur_oid[sched.current] if sched.current >= 0 else None})
-                return cls._husks.pop()
+                # (a recycled address holds an object of the class being created: only a husk of
+                # exactly this class is handed out)
+                for i in range(len(cls._husks) - 1, -1, -1):
+                    if type(cls._husks[i]) is cls:
+                        sched.fired.append({"kind": "reuse", "client": sched.current, "oid": sched.cur_oid[sched.current] if sched.current >= 0 else None})
+                        return cls._husks.pop(i)
             return super().__new__(cls)
 
     grammars = plan["grammars"]
@@ -635,7 +680,7 @@ def execute_plan(plan) -> dict:
             if op.get("reuse"):
                 SimParser._reuse_for.add(me)
             try:
-                p = SimParser.from_grammar(grammars[op["g"]], optimizer=get_opt(op["opt"]), debug=bool(op.get("debug")))
+                p = pool.parser_class_for(grammars[op["g"]], SimParser).from_grammar(grammars[op["g"]], optimizer=get_opt(op["opt"]), debug=bool(op.get("debug")))
             except Exception as e:  # noqa: BLE001
                 rec["build"] = ["exc", type(e).__name__]
                 rec["bkey"] = [op["g"], spec.get("passes"), "interpreter"]
@@ -643,6 +688,12 @@ def execute_plan(plan) -> dict:
             objs[op["id"]] = {"kind": "parser", "obj": p, "g": op["g"], "passes": spec.get("passes")}
             rec["build"] = ["ok"]
             rec["bkey"] = [op["g"], spec.get("passes"), "interpreter"]
+        elif kind == "newbad":
+            try:
+                pool.parser_class_for(op["gtext"], SimParser).from_grammar(op["gtext"], optimizer=get_opt(op["opt"]))
+                rec["accepted"] = True  # the corruption happened to be a valid grammar
+            except Exception as e:  # noqa: BLE001 - the failure is the point; nothing to compare
+                rec["rejected"] = type(e).__name__
         elif kind == "newfrom":
             src_obj = objs.get(op["src"])
             spec = optim_specs[op["opt"]]
@@ -651,7 +702,7 @@ def execute_plan(plan) -> dict:
                 return rec
             rec["bkey"] = [src_obj["g"], spec.get("passes"), "interpreter"]
             try:
-                p = SimParser(src_obj["obj"].rules, src_obj["obj"].doc, optimizer=get_opt(op["opt"]), debug=bool(op.get("debug")))
+                p = type(src_obj["obj"])(src_obj["obj"].rules, src_obj["obj"].doc, optimizer=get_opt(op["opt"]), debug=bool(op.get("debug")))
             except Exception as e:  # noqa: BLE001
                 rec["build"] = ["exc", type(e).__name__]
                 return rec
@@ -892,7 +943,7 @@ def ref_group_child(arg):
 
     gtext, passes, mode, calls = arg
     try:
-        p = Parser.from_grammar(gtext, optimizer=make_optimizer({"passes": passes}))
+        p = pool.parser_class_for(gtext, Parser).from_grammar(gtext, optimizer=make_optimizer({"passes": passes}))
         obj = p
         if mode == "generated":
             obj = load_module(p.generate(), "ref")
@@ -956,7 +1007,7 @@ def diff_clause(obs, ref):
     if obs[0] == "exc-on-late-read":
         return "result-object-unreadable-later"
     if obs[0] == "ok":
-        return "tree-differs"
+        return "tree-differs" if obs[1] != ref[1] else "matched-text-or-line-col-differs"
     if obs[0] == "fail":
         if obs[1] != ref[1]:
             return "failure-position-differs"
@@ -1065,7 +1116,7 @@ def plan_stats(plan, run, viols, checked):
     seen_parse_on: dict = {}
     failed_or_aborted_on: set = set()
     optimized_new_since: dict = {}
-    p_between = p_after_abort = p_after_rec = p_gen_after_foreign = 0
+    p_between = p_after_abort = p_after_rec = p_gen_after_foreign = p_rejected = 0
     made = 0
     for c, oid in order:
         op = opmap[oid]
@@ -1077,6 +1128,8 @@ def plan_stats(plan, run, viols, checked):
                     optimized_new_since[t] = True
         if op["op"] == "gen" and r.get("status") == "done" and made > 1:
             p_gen_after_foreign += 1
+        if op["op"] == "newbad" and r.get("rejected"):
+            p_rejected += 1
         if op["op"] == "parse":
             t = op["t"]
             if r.get("status") == "done":
@@ -1093,7 +1146,7 @@ def plan_stats(plan, run, viols, checked):
             elif r.get("status") == "aborted-exhaust":
                 failed_or_aborted_on.add(t)
                 p_after_rec += 0
-    probes.update({"parse_after_optimized_parser_created_since_last_parse_of_same_object": p_between, "parse_after_aborted_call_on_same_object": p_after_abort, "generate_after_foreign_from_grammar": p_gen_after_foreign})
+    probes.update({"from_grammar_rejected_a_corrupted_grammar": p_rejected, "parse_after_optimized_parser_created_since_last_parse_of_same_object": p_between, "parse_after_aborted_call_on_same_object": p_after_abort, "generate_after_foreign_from_grammar": p_gen_after_foreign})
     gs = set(plan["grammars"])
     twin = {"P-twin1", "P-twin2"} <= gs or {"P-leak", "P-leak2"} <= gs or {"P-builtin", "P-builtin2"} <= gs or any(g.endswith("t") and g[:-1] in gs for g in gs)
     probes["same_rule_names_in_two_grammars_in_one_run"] = 1 if twin else 0
@@ -1431,6 +1484,8 @@ class Check:
                 return f"{op['t']}.parse({op['rule']!r}, {op['text'][:40]!r}{'...' if len(op['text']) > 40 else ''}{', start_pos=%d' % op['pos'] if op.get('pos') else ''}){' [result read at the end of the phase]' if op.get('defer') else ''}"
             if k in ("drop", "reads"):
                 return f"{k}({op['t']})"
+            if k == "newbad":
+                return f"from_grammar(<corrupted grammar, {len(op['gtext'])} chars>) [expected to raise]"
             if k == "flood":
                 return f"flood({op['t']}.parse({op['rule']!r}, {op['text']!r}+i) for i<{op['n']})"
             return k
@@ -1471,7 +1526,7 @@ class Check:
         return [
             "steps inside C extensions (regex matching, compile) are atomic to the scheduler; line/opcode pre-emption over-approximates GIL hand-off points; free-threaded CPython is outside the model",
             "the isolated reference is produced by the same code on the shortest possible history (pristine process, one parser, one call); a defect that is independent of history is invisible to this oracle by design (it belongs to C01-C04)",
-            "compared: outcome class, tree (rule, start, end, tag, children), furthest-failure position, expected/unexpected label sets; not compared: message text, label multiplicity/order, furthest_stack, generated source bytes",
+            "compared: outcome class, tree (rule, start, end, tag, children) plus str() and line_col() of the first three top-level pairs, furthest-failure position, expected/unexpected label sets; not compared: message text, label multiplicity/order, furthest_stack, generated source bytes",
             "operations aborted by an injected fault have no expected result; every completed call after them is checked",
         ]
 
